@@ -2,6 +2,8 @@ package e2e
 
 import (
 	"fmt"
+	"os"
+	"sync/atomic"
 	"time"
 
 	"verif/harness/refproto"
@@ -110,4 +112,27 @@ func DescribeSeg(s *refproto.Segment) string {
 	return fmt.Sprintf("{proto=%d sid=%d seq=%d unack=%d frag=%d pre=%d plen=%d suf=%d le=%d/%08x/%d/%d payload=%d}",
 		s.Meta.Proto, s.Meta.SessionID, s.Meta.Seq, s.Meta.UnAck, s.Meta.Fragment, s.Meta.PrefixLen, s.Meta.PayloadLen, s.Meta.SuffixLen,
 		s.Meta.Byte1, s.Meta.LEMask, s.Meta.LEExtracted, s.Meta.LERot, len(s.Payload))
+}
+
+var (
+	uniqueCounter atomic.Uint64
+	uniqueBase    = uint64(time.Now().UnixNano()) ^ uint64(os.Getpid())<<40
+)
+
+// UniqueNonce mixes a process-unique value into the first 12 bytes of a
+// case-provided nonce. mieru keeps process-wide replay caches keyed by the
+// first bytes of every segment, so a harness that re-used a nonce (rapid
+// re-draws small values and re-runs cases while shrinking) would be treated
+// as a replay attacker; this keeps reference-built segments fresh.
+func UniqueNonce(caseNonce []byte) []byte {
+	n := append([]byte(nil), caseNonce...)
+	v := mix64(uniqueBase + uniqueCounter.Add(1)*0x9E3779B97F4A7C15)
+	w := mix64(v ^ 0xabcdef12345)
+	for i := 0; i < 8 && i < len(n); i++ {
+		n[i] ^= byte(v >> (8 * uint(i)))
+	}
+	for i := 8; i < 12 && i < len(n); i++ {
+		n[i] ^= byte(w >> (8 * uint(i-8)))
+	}
+	return n
 }
